@@ -438,8 +438,11 @@ def run(check):
           lp = rule_loops[0]
           # every non-None result is added before the next iteration
           def is_none(a, lab, b):
-            return isinstance(lab, tuple) and lab[0] == 'T' and isinstance(lab[1], ast.Compare) and \
-              isinstance(lab[1].ops[0], ast.Is) and isinstance(lab[1].comparators[0], ast.Constant) and lab[1].comparators[0].value is None
+            if not (isinstance(lab, tuple) and isinstance(lab[1], ast.Compare) and len(lab[1].ops) == 1 and
+                    isinstance(lab[1].comparators[0], ast.Constant) and lab[1].comparators[0].value is None):
+              return False
+            op = lab[1].ops[0]
+            return (isinstance(op, (ast.Is, ast.Eq)) and lab[0] == 'T') or (isinstance(op, (ast.IsNot, ast.NotEq)) and lab[0] == 'F')
           rr = g.reach(g.after(gam[0]), removed_nodes=set(adds), removed_edge=is_none, normal_only=True)
           okadd = lp not in rr and g.exit not in rr
         if okadd:
